@@ -1326,6 +1326,10 @@ def d5_write_addressing(ck, mod):
         ck.missing(rule, '%s: no store into the flat data found (the addressing of writes is not recognised)' % W)
         return
     n = 0
+    try:
+        rw = C05._follow_delegates(ck, mod, [C05.CLS + '.__getitem__', C05.CLS + '.__setitem__'])
+    except Exception:
+        rw = mod
     for helper, run in rules:
         if helper is not None and helper not in callees:
             ck.missing(rule, '%s does not reach the index-conversion helper %s: the flat index of `%s` is computed in a way '
@@ -1333,7 +1337,9 @@ def d5_write_addressing(ck, mod):
             continue
         n += 1
         if run is not None:
-            run(ck, mod)
+            # the reader/writer rules see both methods as they are after following their delegation to new private
+            # helpers, exactly as the C05 check runs them
+            run(ck, rw if run in (C05.d1_call_sites, C05.d3_dispatch, C05.d3_row_count) else mod)
     covered = {h for h, _ in rules if h} | {'partition_list'}
     for helpers, run in content:
         if helpers[0] in callees:
